@@ -2477,7 +2477,8 @@ class RedunBackendDb(RedunBackend):
         current_call_nodes = [
             call_node
             for call_node in call_nodes
-            if call_node2task_hashes[call_node.call_hash] <= scheduler_task_hashes
+            if task_hash in call_node2task_hashes[call_node.call_hash]
+            and call_node2task_hashes[call_node.call_hash] <= scheduler_task_hashes
         ]
 
         if current_call_nodes:
